@@ -130,9 +130,162 @@ def deductive(rep: Report, tier):
         def post_g(I, ctx, outcome, val, aux):
             return [("raises_ValueError", outcome == "raise" and val.exc_type == "ValueError"), ("nothing_called_before", "core" not in ctx.ghost)]
         run_case(rep, P, G + "solve", f"guard_square.{prec}", setup_g, post_g, lib=lib, contracts=contracts, clauses=["raises_ValueError", "nothing_called_before"])
+    core_bookkeeping(rep)
     # canary: a residual formed against a different right-hand side is not accepted
     a, b, c = z3.Reals("a b c")
     rep.canary("C04.canary.other_rhs", smt.prove([a >= 0, b > 0, c > 0], a / b == a / c, 5).status == smt.REFUTED)
+
+
+# ----------------------------------------------------------------------------------------------------
+# term-level bookkeeping of the Arnoldi core
+def core_bookkeeping(rep: Report):
+    from .. import term as tm
+    from ..interp import LoopRule
+    UQ = "quatica/utils.py::"
+    QN = G + "_GMRESQsparse"
+    contracts = {UQ + "normQsparse": tm.k_norm, UQ + "timesQsparse": tm.k_times, UQ + "Hess_QR_ggivens": tm.k_hess_qr,
+                 UQ + "A2A0123": tm.k_a2a0123, UQ + "UtriangleQsparse": tm.k_utriangle}
+
+    def residual_of(A, b, x):
+        d = tm.times_terms(A, x)
+        return tm.norm_term([b[c] - d[c] for c in range(4)]) / tm.norm_term(b)
+
+    class Arnoldi(LoopRule):
+        """for j in range(m): the Arnoldi / Gram-Schmidt body is NOT executed; afterwards the basis V (N x m'), the
+        Hessenberg matrix H (m'+1 x m'), the next vector v, the breakdown flag and m' (1 <= m' <= m, m' = m unless
+        breakdown) are arbitrary."""
+        skip_body = True
+        modifies = ("V0", "V1", "V2", "V3", "H0", "H1", "H2", "H3", "v_0", "v_1", "v_2", "v_3", "breakdown", "m")
+
+        def havoc(self, it, fr, k):
+            c = cur()
+            N, m_old = fr.vars["N"], fr.vars["m"]
+            bd = SBool(z3.Bool(c.fresh_name("breakdown")))
+            mp = SInt.var(c.fresh_name("m_cycle"))
+            c.assume(sand(mp >= 1, mp <= m_old, sor(bd, mp == m_old)))
+            tag = c.fresh_name("cyc")
+            for i in range(4):
+                fr.vars[f"V{i}"] = tm.atom(f"V{i}@{tag}", (N, mp))
+                fr.vars[f"H{i}"] = tm.atom(f"H{i}@{tag}", (mp + 1, mp))
+                fr.vars[f"v_{i}"] = tm.atom(f"v{i}@{tag}", (N, 1))
+            fr.vars["breakdown"] = bd
+            fr.vars["m"] = mp
+            c.ghost["cycle"] = dict(m=mp, breakdown=bd, index=m_old)
+
+    class Restart(LoopRule):
+        """for m in range(1, N+1): at the head of cycle k > 1 the state is the one left by a completed, non-stopping cycle
+        k-1:  x0 = xm,  res = ||b - A xm|| / ||b||,  iter = k-1,  history of length k-1 whose last entry is [k-1, . , res]."""
+        modifies = ("x0_0", "x0_1", "x0_2", "x0_3", "xm_0", "xm_1", "xm_2", "xm_3", "res", "resv", "iter", "V0", "V1", "V2", "V3")
+
+        def establish(self, it, fr, start):
+            c = cur()
+            z = all(isinstance(fr.vars.get(f"x0_{i}"), tm.TArr) and fr.vars[f"x0_{i}"].node[0] == "zeros" for i in range(4))
+            c.require("inv.establish", z, "the first cycle starts from x0 = 0", key="core.inv.establish.x0_zero")
+            c.require("inv.establish", isinstance(fr.vars.get("resv"), list) and not fr.vars["resv"], "history empty at entry", key="core.inv.establish.history_empty")
+            c.ghost["entry"] = {n: fr.vars.get(n) for n in ("x0_0", "x0_1", "x0_2", "x0_3", "resv")}
+
+        def havoc(self, it, fr, k):
+            c = cur()
+            g = c.ghost
+            A = [fr.vars[f"A{i}"] for i in range(4)]
+            b = [fr.vars[f"b_{i}"] for i in range(4)]
+            N = fr.vars["N"]
+            if c.decide(SBool.mk(SInt.lift(k) > 1)):
+                tag = c.fresh_name("prev")
+                XM = [tm.atom(f"xm{i}@{tag}", (N, 1)) for i in range(4)]
+                res = residual_of(A, b, XM)
+                RY = z3.Function(c.fresh_name("RESYM"), z3.IntSort(), z3.RealSort())
+                RX = z3.Function(c.fresh_name("RESXM"), z3.IntSort(), z3.RealSort())
+                entry = lambda j: [SInt.mk(SInt.lift(j) + 1), SReal(RY(SInt.lift(j))), SReal(z3.If(SInt.lift(j) == SInt.lift(k - 2), SReal.lift(res), RX(SInt.lift(j))))]
+                for i in range(4):
+                    fr.vars[f"xm_{i}"] = XM[i]
+                    fr.vars[f"x0_{i}"] = XM[i].copy()
+                    fr.vars[f"V{i}"] = tm.atom(f"Vprev{i}@{tag}", (N, k - 1))
+                fr.vars["res"] = res
+                fr.vars["iter"] = k - 1
+                fr.vars["resv"] = SymList(k - 1, "resv", entry=entry)
+                g["head"] = dict(k=k, x0=XM, first=False)
+            else:
+                for n_, v in g["entry"].items():
+                    fr.vars[n_] = v.copy() if isinstance(v, tm.TArr) else list(v)
+                g["head"] = dict(k=k, x0=[fr.vars[f"x0_{i}"] for i in range(4)], first=True)
+
+        def preserve(self, it, fr, k):
+            c = cur()
+            A = [fr.vars[f"A{i}"] for i in range(4)]
+            b = [fr.vars[f"b_{i}"] for i in range(4)]
+            xm = [fr.vars.get(f"xm_{i}") for i in range(4)]
+            x0 = [fr.vars.get(f"x0_{i}") for i in range(4)]
+            ok = all(isinstance(v, tm.TArr) for v in xm + x0)
+            c.require("inv.preserve", ok and all(a.node == b_.node for a, b_ in zip(x0, xm)), "a cycle that does not stop hands its own iterate xm to the next cycle as x0", key="core.inv.preserve.restart_from_xm")
+            c.require("inv.preserve", ok and req(fr.vars.get("res"), residual_of(A, b, xm)), "res is ||b - A xm|| / ||b|| of this cycle's iterate", key="core.inv.preserve.res_is_residual_of_xm")
+            c.require("inv.preserve", SBool.mk(SInt.lift(fr.vars.get("iter")) == SInt.lift(k)), "iter is the cycle index", key="core.inv.preserve.iter")
+            rv = fr.vars.get("resv")
+            items = rv.items if isinstance(rv, SymList) else rv
+            n_now = rv.length() if isinstance(rv, SymList) else len(rv)
+            last = items[-1] if items else None
+            good = isinstance(last, list) and len(last) == 3
+            c.require("inv.preserve", good and SBool.mk(SInt.lift(n_now) == SInt.lift(k)), "exactly one history entry per cycle", key="core.inv.preserve.history_length")
+            if good:
+                c.require("inv.preserve", sand(SBool.mk(SInt.lift(last[0]) == SInt.lift(k)), req(last[2], fr.vars.get("res"))), "history entry is [cycle, . , res of this cycle]", key="core.inv.preserve.history_entry")
+            self.check_update(fr, xm)
+
+        @staticmethod
+        def check_update(fr, xm):
+            c = cur()
+            h = c.ghost["head"]
+            V = [fr.vars.get(f"V{i}") for i in range(4)]
+            shape_ok = all(isinstance(x, tm.TArr) and x.node[0] == "add" and x.node[2] == h["x0"][i].node and isinstance(x.node[1], tuple) and x.node[1][0] == "times"
+                           and x.node[1][1] == i and x.node[1][2] == tuple(v.node for v in V) for i, x in enumerate(xm))
+            c.require("step", shape_ok, "xm = x0 + V y with the cycle's basis V and the restart iterate x0", key="core.step.xm_is_x0_plus_Vy")
+
+    for cap in ("given", "none"):
+        def setup(I, ctx, cap=cap):
+            (n,) = dims(ctx, "n")
+            A = [tm.atom(f"A{i}", (n, n)) for i in range(4)]
+            b = [tm.atom(f"b{i}", (n, 1)) for i in range(4)]
+            tol, K = SReal.var("tol"), SInt.var("maxit")
+            slf = mk_self(I, "QGMRESSolver", tol=tol, max_iter=None, verbose=False, preconditioner="none")
+            return [slf] + A + b + [tol, (K if cap == "given" else None)], {}, dict(A=A, b=b, n=n, tol=tol)
+
+        def post(I, ctx, outcome, val, aux):
+            if outcome == "raise":
+                return [("no_exception", False)]
+            if outcome != "return":
+                return []
+            A, b, n = aux["A"], aux["b"], aux["n"]
+            ok = isinstance(val, tuple) and len(val) == 11
+            out = [("no_exception", True), ("returns_eleven_values", ok)]
+            if not ok:
+                return out
+            xm, res, it, resv = list(val[0:4]), val[4], val[9], val[10]
+            nb = tm.norm_term(b)
+            if ctx.valid(nb == 0) is True:
+                zero = all(isinstance(x, tm.TArr) and x.node[0] == "zeros" for x in xm)
+                out += [("zero_rhs_returns_x_zero", zero), ("zero_rhs_residual_zero_no_cycles", res == 0 and it == 0 and resv == [])]
+                return out
+            out.append(("zero_rhs_returns_x_zero", True))
+            out.append(("zero_rhs_residual_zero_no_cycles", True))
+            good = all(isinstance(x, tm.TArr) for x in xm)
+            out.append(("res_is_residual_of_returned_x", good and req(res, residual_of(A, b, xm))))
+            items = resv.items if isinstance(resv, SymList) else resv
+            if items:
+                last = items[-1]
+            elif isinstance(resv, SymList) and resv.entry is not None:
+                last = resv.entry(resv.length() - 1)
+            else:
+                last = None
+            goodl = isinstance(last, list) and len(last) == 3
+            out.append(("last_history_entry_is_returned_res", goodl and req(last[2], res)))
+            out.append(("iter_is_last_cycle", goodl and SBool.mk(SInt.lift(it) == SInt.lift(last[0]))))
+            if ctx.ghost.get("phase") == "generic":
+                Restart.check_update(ctx.ghost["loop_frame"], xm) if ctx.ghost.get("loop_frame") else None
+            return out
+        cl = ["no_exception", "returns_eleven_values", "zero_rhs_returns_x_zero", "zero_rhs_residual_zero_no_cycles", "res_is_residual_of_returned_x",
+              "last_history_entry_is_returned_res", "iter_is_last_cycle"]
+        lib = tm.install(Library("idx"))
+        run_case(rep, P, QN, f"bookkeeping.cap_{cap}", setup, post, lib=lib, contracts=contracts,
+                 loop_rules={(QN, 0): Restart(), (QN, 1): Arnoldi()}, clauses=cl, replay=replay_solve, timeout_s=30, max_paths=800)
 
 
 # ----------------------------------------------------------------------------------------------------
